@@ -97,6 +97,7 @@ type RunConfig struct {
 	TapeTasks bool   `json:"tape_tasks,omitempty"`  // false: tasks succeed unless a fate says otherwise
 	Readers   bool   `json:"readers_inside,omitempty"`
 	PollMs    int    `json:"shutdown_poll_ms,omitempty"`
+	PersistCheck bool `json:"persist_check,omitempty"` // settle actions wait three persist pauses and compare store and API
 }
 
 func (p PipeS) toDef() definition.PipelineDef {
@@ -301,7 +302,7 @@ func (g gen) pipeline(name string, o genOpts) PipeS {
 		}
 	}
 	if o.retention {
-		p.RetCount = g.oneOf(0, 0, 1, 2, 5)
+		p.RetCount = g.oneOf(0, 1, 2, 5)
 		p.RetPeriodMs = g.oneOf(0, 0, 60_000, 3_600_000)
 	}
 	return p
@@ -345,6 +346,8 @@ func Generate(seed uint64, profile string, faults bool) *Scenario {
 	nClients := 1 + g.n(3)
 	opsPer := 4 + g.n(8)
 	badVar := 0
+	rich := false
+	shutdowns := 0
 	mix := map[string]int{"schedule": 10, "cancel": 3, "read": 1, "list": 1}
 
 	switch profile {
@@ -406,6 +409,43 @@ func Generate(seed uint64, profile string, faults bool) *Scenario {
 		cfg.HTTP = true
 		cfg.Store = "mem"
 		o.retention = true
+	case "C10":
+		cfg.Store = "json"
+		if g.p(300) {
+			cfg.Store = "mem"
+		}
+		cfg.WCrash = 1
+		mix = map[string]int{"schedule": 10, "cancel": 3, "save": 2}
+		o.retention = g.p(300)
+		cfg.HTTP = g.p(300)
+		rich = true
+		o.delayPermille = 150
+	case "C11":
+		cfg.Store = "mem"
+		if g.p(300) {
+			cfg.Store = "json"
+		}
+		mix = map[string]int{"schedule": 10, "cancel": 2, "save": 2}
+		cfg.WSettle = 1
+		cfg.PersistCheck = g.p(500)
+		if cfg.PersistCheck {
+			// "without an explicit save": an explicit SaveToStore that overlaps the persist loop can complete late
+			// with an older snapshot; that interplay belongs to C13 (overlapping saves), not to persist liveness
+			delete(mix, "save")
+		}
+		cfg.PollMs = g.oneOf(3000, 3000, 200)
+		o.delayPermille = 200
+		o.delayChoice = []int{50, 300, 2000}
+		shutdowns = 1 + g.n(2)
+	case "C12":
+		cfg.Store = "mem"
+		cfg.Logs = true
+		o.retention = true
+		mix = map[string]int{"schedule": 10, "cancel": 2, "save": 6, "reload": 2}
+		cfg.WAdvance = 4
+		cfg.WCrash = g.oneOf(0, 0, 1)
+		o.delayPermille = 100
+		opsPer = 6 + g.n(10)
 	case "C16":
 		mix = map[string]int{"schedule": 10, "cancel": 2, "reload": 5}
 		o.delayPermille = 400
@@ -421,6 +461,12 @@ func Generate(seed uint64, profile string, faults bool) *Scenario {
 		cfg.PExit0 = g.oneOf(0, cfg.PExit0, 100)
 		if g.p(300) {
 			cfg.PUUIDErr = 100
+		}
+		if cfg.Store != "none" && g.p(400) {
+			cfg.PSaveErr = 150
+		}
+		if cfg.Logs && g.p(400) {
+			cfg.PRemErr = 200
 		}
 	} else {
 		badVar = 0
@@ -475,6 +521,9 @@ func Generate(seed uint64, profile string, faults bool) *Scenario {
 					op.Pipeline = "undefined"
 				}
 				op.Vars = simpleVars(g, badVar)
+				if rich {
+					op.Vars = richVars(g)
+				}
 				op.User = fmt.Sprintf("u%d", g.n(3))
 				scheduled++
 			case "cancel", "read":
@@ -488,6 +537,14 @@ func Generate(seed uint64, profile string, faults bool) *Scenario {
 			prog = append(prog, op)
 		}
 		sc.Clients = append(sc.Clients, prog)
+	}
+	for i := 0; i < shutdowns; i++ {
+		c := g.n(len(sc.Clients))
+		pos := g.n(len(sc.Clients[c]) + 1)
+		op := Op{Kind: "shutdown", Forced: g.p(500), AfterMs: g.oneOf(0, 1, 50, 200, 1000, 5000), Signal: g.p(500)}
+		prog := append([]Op(nil), sc.Clients[c][:pos]...)
+		prog = append(prog, op)
+		sc.Clients[c] = append(prog, sc.Clients[c][pos:]...)
 	}
 	// forced fates so that failure scenarios are reached even on zero tapes
 	if faults && (profile == "C08" || profile == "C02" || g.p(200)) {
@@ -637,4 +694,26 @@ func derefInt(p *int) int {
 		return -1
 	}
 	return *p
+}
+
+
+var richPool = []interface{}{1e-9, 0.1, 1234567.891, 1e21, -0.000123456789, 3.0, 42.0, 0.30000000000000004, 9007199254740993.0,
+	1.7976931348623157e308, 5e-324, "", "ünï©ode ✓ 日本", "line\nbreak \"q\" \\ $HOME {{.x}}", true, false, nil,
+	[]interface{}{1.5, "x", map[string]interface{}{"n": 2.25}}, map[string]interface{}{"deep": map[string]interface{}{"f": 0.1234567890123}, "e": []interface{}{}}}
+
+// richVars: job variables of every JSON type (C10).
+func richVars(g gen) map[string]interface{} {
+	n := g.n(5)
+	if n == 0 {
+		return nil
+	}
+	m := map[string]interface{}{}
+	for i := 0; i < n; i++ {
+		key := fmt.Sprintf("v%d", g.n(6))
+		if g.p(150) {
+			key = []string{"k ü", "q\"uote", "back\\slash", "new\nline", "", "日本"}[g.n(6)]
+		}
+		m[key] = richPool[g.n(len(richPool))]
+	}
+	return m
 }
